@@ -2,11 +2,14 @@
   CB.Props.C10 — modular inversion and gcd (property C10).
 
   T10.1  inversion modulo 2^k (all widths `w`, i.e. all limb counts `w = 64·LIMBS`)      — full
+  T10.2  `inv_mod` for `m = s·2^k` (CRT recombination), given the odd-modulus inverter spec   — full
+         (+ proved negation for modulus 0: the fixed-width form panics — DESIGN §7 row 8)
+  T10.3  `gcd = 2^k · gcd(f, g)` incl. zeros, given the odd-operand gcd spec                   — full
   (further sections are appended below as they are proved)
 -/
-import CB.Lemmas.C10InvMod2k
+import CB.Lemmas.C10Gcd
 namespace CB.P10
-open CB.InvMod2k
+open CB.InvMod2k CB.Gcd
 
 /-! ## T10.1 — `inv_mod2k`, `inv_mod2k_vartime`, `inv_mod2k_full_vartime` (fixed and boxed) -/
 
@@ -57,5 +60,78 @@ theorem inv_mod2k_variants_agree (w a k : Nat) (hk : k ≤ w) :
 example : (invMod2k 128 0xfffffffffffffffffffffffefffffc2f 100).2 = true ∧
     (0xfffffffffffffffffffffffefffffc2f * (invMod2k 128 0xfffffffffffffffffffffffefffffc2f 100).1) % 2 ^ 100 = 1 := by
   decide +kernel
+
+
+/-! ## T10.2 — `Uint::inv_mod` / `BoxedUint::inv_mod`: CRT recombination for `m = s·2^k`
+
+The odd-modulus inverter (`inv_odd_mod`, safegcd — T10.4) enters as the hypothesis
+`OddInvSpec inv w`: for odd `s < 2^w`, `inv a s = some x` iff `gcd(a, s) = 1`, and then `x < s`,
+`a·x ≡ 1 (mod s)`.  Callee exactness (`wrapping_mul/sub/add`, shifts, `trailing_zeros`) is C03–C05. -/
+
+/-- for every modulus `1 ≤ m < 2^BITS` and every `a`: never panics, `is_some ↔ gcd(a, m) = 1`,
+    and then `x < m` (also for `m = 1`) and `a·x ≡ 1 (mod m)`. -/
+theorem inv_mod_crt (inv : Nat → Nat → Option Nat) (w a m : Nat) (H : OddInvSpec inv w)
+    (ha : a < 2 ^ w) (hm0 : 0 < m) (hm : m < 2 ^ w) :
+    match invModWith inv w a m with
+    | R.some x => Nat.gcd a m = 1 ∧ x < m ∧ a * x ≡ 1 [MOD m]
+    | R.none => Nat.gcd a m ≠ 1
+    | R.panic => False :=
+  invModWith_spec inv w a m H ha hm0 hm
+
+/-- the boxed duplicate (equal precisions) -/
+theorem boxed_inv_mod_crt (inv : Nat → Nat → Option Nat) (w a m : Nat) (H : OddInvSpec inv w)
+    (ha : a < 2 ^ w) (hm0 : 0 < m) (hm : m < 2 ^ w) :
+    match invModBoxedWith inv w a m with
+    | R.some x => Nat.gcd a m = 1 ∧ x < m ∧ a * x ≡ 1 [MOD m]
+    | R.none => Nat.gcd a m ≠ 1
+    | R.panic => False :=
+  invModBoxedWith_spec inv w a m H ha hm0 hm
+
+/- FULL STATEMENT (unproved, FALSE of the code): the option-returning `Uint::inv_mod` is total,
+   i.e. `invModWith inv w a 0 = R.none`.  The proved negation: -/
+
+/-- DESIGN §7 row 8: with modulus 0 the fixed-width `inv_mod` reaches
+    `s.inv_mod2k(k).expect("inverse mod 2^k exists")` with `s = 0`, `k = BITS`: it panics for
+    every `a` and every inverter. -/
+theorem inv_mod_zero_modulus_panics (inv : Nat → Nat → Option Nat) (w a : Nat) (hw : 0 < w) :
+    (match invModWith inv w a 0 with | R.panic => True | _ => False) :=
+  invModWith_zero_modulus inv w a hw
+
+/-- … while `BoxedUint::inv_mod(a, 0)` answers `none`. -/
+theorem boxed_inv_mod_zero_modulus_none (inv : Nat → Nat → Option Nat) (w a : Nat) :
+    (match invModBoxedWith inv w a 0 with | R.none => True | _ => False) :=
+  invModBoxedWith_zero_modulus inv w a
+
+/-- non-vacuity: an inverter satisfying `OddInvSpec` exists (search below `s`), so the hypotheses
+    of `inv_mod_crt` are satisfiable; concrete instance 7⁻¹ mod 40 = 23 with the table inverter. -/
+example : (match invModWith (fun a s => (List.range s).find? (fun x => a * x % s == 1 % s)) 64 7 40 with
+    | R.some x => decide (x = 23) | _ => false) = true := by decide +kernel
+
+/-! ## T10.3 — `Uint::gcd`: common power of two and odd-operand selection
+
+`og f g` stands for `SafeGcdInverter::gcd(&f, &g)`; hypothesis `OddGcdSpec og w`: `og f g = gcd(f, g)`
+whenever at least one of `f`, `g` is odd.  (As written the code hands over an EVEN `f` whenever `s2`
+is even — then `g` is odd; safegcd's first divstep swaps. See notes/C10.md.) -/
+
+/-- `gcd(a, b)` for all `a, b < 2^BITS`, including zeros, equal values and powers of two. -/
+theorem gcd_reduction (og : Nat → Nat → Nat) (w a b : Nat) (H : OddGcdSpec og w)
+    (ha : a < 2 ^ w) (hb : b < 2 ^ w) : gcdWith og w a b = Nat.gcd a b :=
+  gcdWith_spec og w a b H ha hb
+
+/-- the `Gcd` trait's `gcd_vartime` (odd `self` → `Odd::gcd_vartime`, else the ct path) -/
+theorem gcd_vartime_reduction (og ogv : Nat → Nat → Nat) (w a b : Nat) (H : OddGcdSpec og w)
+    (Hv : OddGcdSpec ogv w) (ha : a < 2 ^ w) (hb : b < 2 ^ w) :
+    gcdVartimeWith og ogv w a b = Nat.gcd a b :=
+  gcdVartimeWith_spec og ogv w a b H Hv ha hb
+
+/-- constant-time and vartime forms agree -/
+theorem gcd_ct_vartime_agree (og ogv : Nat → Nat → Nat) (w a b : Nat) (H : OddGcdSpec og w)
+    (Hv : OddGcdSpec ogv w) (ha : a < 2 ^ w) (hb : b < 2 ^ w) :
+    gcdVartimeWith og ogv w a b = gcdWith og w a b := by
+  rw [gcd_vartime_reduction og ogv w a b H Hv ha hb, gcd_reduction og w a b H ha hb]
+
+/-- non-vacuity: `Nat.gcd` satisfies `OddGcdSpec`; gcd(48, 36) = 12 through the reduction -/
+example : OddGcdSpec Nat.gcd 64 ∧ gcdWith Nat.gcd 64 48 36 = 12 :=
+  ⟨fun _ _ _ _ _ => rfl, by decide +kernel⟩
 
 end CB.P10
